@@ -389,6 +389,7 @@ def _discharge_clause(report, contract, case, path, P, pc, cl, props, oid, timeo
             "kind": cl.kind,
             "path": pi,
             "bounded": cl.bounded or contract.bounded,
+            "lifts": bool(getattr(contract, "lifts", False)) and cl.kind in ("sound", "equals", "complete", "state"),
             "status": None,
             "clause": cl.name,
         }
